@@ -320,9 +320,12 @@ class SockServer:
                 # Process message, and generate reply
                 try:
                     m = SocketMessageToServer.from_json(msg.decode())
-                except InvalidSocketMessageError:
-                    # Ignoring message
-                    pass
+                except Exception as e:
+                    # Ignoring malformed message (invalid utf-8, invalid JSON, wrong
+                    # types...): it must never stop the listener
+                    __hermes__.logger.warning(
+                        f"Ignoring malformed message received on socket: {str(e)}"
+                    )
                 else:
                     reply: SocketMessageToClient = self._processHdlr(m)
                     try:
